@@ -119,6 +119,16 @@ for _k in ('cia_prepare_each', 'rayleigh_prepare_each', 'absorption_prepare_each
     _sp = dict([x for x in SRC_SPECS if x['lean'] == _k][0])
     _sp.update(lean=_k + '_published', callname=_k + '_published', publish='self.sigma_xsec')
     SRC_SPECS.append(_sp)
+# the cloud deck and the two hazes (one component each): the specs are C19's (harness/c19.py), re-translated here into
+# Gen/SrcC03.lean together with their `publish` variants — on the pinned tree SimpleClouds stored its deck in `self._contrib`
+# only (the component route then integrated a stale `sigma_xsec`; repaired in /repo, DESIGN §6)
+from harness import c19 as _c19   # noqa: E402
+_C19 = {s['lean']: s for s in _c19.SRC_SPECS}
+for _k in ('clouds_prepare_each', 'lee_prepare_each', 'flat_prepare_each'):
+    SRC_SPECS.append(dict(_C19[_k]))
+    _sp = dict(_C19[_k])
+    _sp.update(lean=_k + '_published', callname=_k + '_published', publish='self.sigma_xsec')
+    SRC_SPECS.append(_sp)
 SRC_SPECS.append(
     dict(module='taurex/model/simplemodel.py', cls='SimpleForwardModel', func='model_full_contrib',
          lean='model_full_contrib', dialect='shaped', params=dict(wngrid='skip', cutoff_grid='skip'),
@@ -636,12 +646,12 @@ def route_history(ctx, spec, m):
     sm = dict(small(spec), route_history=h)
     case = spec
     never = bool(h.get('never_run'))
-    # TODO(finding, reported to the coordinator; remove when /repo is repaired): SimpleCloudsContribution.prepare_each stores
-    # its deck in `self._contrib` while `contribute` reads `self.sigma_xsec` (only `prepare` assigns it), so the 'Clouds'
-    # component of model_full_contrib() is the deck of the LAST prepare(): stale after a change of clouds_pressure or of the
-    # pressure grid.  That component is kept out of the judged stream and counted.
+    # (On the pinned tree SimpleCloudsContribution.prepare_each stored its deck in `self._contrib` while `contribute` reads
+    # `self.sigma_xsec`, so the 'Clouds' component of model_full_contrib() was the deck of the LAST prepare(): stale after a
+    # change of clouds_pressure or of the pressure grid.  Found by this stream, repaired in /repo (known_findings.txt, DESIGN
+    # §6); the component is judged like every other one.)
     # A model that was NEVER evaluated: the per-component route needs attributes only prepare() sets (Absorption `_nlayers`,
-    # HydrogenIon `_ngrid`, SimpleClouds `sigma_xsec`) and raises; no transmittance is returned that the property could
+    # HydrogenIon `_ngrid`) and raises; no transmittance is returned that the property could
     # speak about -> malformed stream.  When the routes do run, they are judged like any other history.
     try:
         if never:
@@ -718,8 +728,7 @@ def route_history(ctx, spec, m):
         one = np.asarray(cdict[nm][1], float) if nm in cdict else None
         comps = fdict.get(nm)
         if type(cobj).__name__ == 'SimpleCloudsContribution':
-            ctx.bucket('TODO-finding:SimpleClouds-component-not-published:component-not-judged')
-            comps = []
+            ctx.bucket('route-history:cloud-deck-component-judged')
         ctx.disagreements_checked += 1
         if one is None or not T.trans_close(one, lean_trans(kind, contribs_f[i][1]), rel=1e-8):
             ctx.mismatch('model_contrib()[%s] of a model with a history vs Transmission.modelTrans on the new values' % nm,
@@ -743,7 +752,7 @@ def route_history(ctx, spec, m):
                 ctx.violation('stale-state:component-identity:' + nm, 'contribution transmittance != product over its '
                               'components %s' % ('on a never-run model' if never else 'after a parameter change'), case,
                               dict(route_history=h, contribution=one[:3], product=cp[:3]))
-        fresh_names = [cn for cn, _ in comps_f[i]] if type(cobj).__name__ != 'SimpleCloudsContribution' else []
+        fresh_names = [cn for cn, _ in comps_f[i]]
         if [str(cn) for cn, _, _, _ in comps] != fresh_names:
             ctx.violation('stale-state:component-names:' + nm, 'components differ from a freshly built model', case,
                           dict(route_history=h, reused=[str(c[0]) for c in comps], fresh=fresh_names))
